@@ -601,12 +601,22 @@ def discover {ρ μ ω} (im : Meta ρ μ ω) (useRw useMod useVoi : Bool) (f : N
 def getFrame {ρ μ ω β} (im : Meta ρ μ ω) (useRw useMod useVoi : Bool) (apply : Found ρ μ ω → Nat → β) (f : Nat) : β :=
   apply (discover im useRw useMod useVoi f) f
 
-/-- `get_frames`: one transform built for the first requested frame, reused while `applies_to_all_frames` -/
+/-- the frame loop shared by `get_frames` and `_get_pixels_by_frame`: one transform built for frame `f0`, reused
+while it `applies_to_all_frames`, otherwise rebuilt for the frame of the iteration -/
+def getWith {ρ μ ω β} (im : Meta ρ μ ω) (useRw useMod useVoi : Bool) (apply : Found ρ μ ω → Nat → β) (f0 : Nat)
+    (fs : List Nat) : List β :=
+  let d0 := discover im useRw useMod useVoi f0
+  fs.map fun f => if d0.all then apply d0 f else apply (discover im useRw useMod useVoi f) f
+
+/-- `get_frames`: the reusable transform is built for the first requested frame -/
 def getFrames {ρ μ ω β} (im : Meta ρ μ ω) (useRw useMod useVoi : Bool) (apply : Found ρ μ ω → Nat → β) (fs : List Nat) : List β :=
   match fs with
   | [] => []
-  | f0 :: _ =>
-    let d0 := discover im useRw useMod useVoi f0
-    fs.map fun f => if d0.all then apply d0 f else apply (discover im useRw useMod useVoi f) f
+  | f0 :: _ => getWith im useRw useMod useVoi apply f0 fs
+
+/-- `_get_pixels_by_frame` (core of `get_volume` and `get_total_pixel_matrix`): the reusable transform is built
+for frame 1 (index 0) -/
+def getPixelsByFrame {ρ μ ω β} (im : Meta ρ μ ω) (useRw useMod useVoi : Bool) (apply : Found ρ μ ω → Nat → β) (fs : List Nat) : List β :=
+  getWith im useRw useMod useVoi apply 0 fs
 
 end HdVerif.PixelPipeline
